@@ -69,6 +69,7 @@ pub enum Source<'a> {
 }
 
 pub struct ExecOpts {
+    pub dtor_downgrade_p: u32,
     pub want_snaps: bool,
     pub record_dtors: bool,
     pub layout_noise: bool,
@@ -77,6 +78,8 @@ pub struct ExecOpts {
 
 pub struct ExecOut {
     pub ops: Vec<Op>,
+    /// destructor-side calls that the payload issued on its own (position, call)
+    pub inline: Vec<(u32, Vec<Op>)>,
     pub dtors: Vec<DtorSnap>,
     pub call_digests: Vec<u64>,
     pub order_digest: u64,
@@ -99,7 +102,7 @@ fn ctx_head(profile: &str, seed: u64, run: u64, exec_i: u64, layouts: &[u64], fa
 pub fn execute(head: &str, src: Source<'_>, faults: &Faults, layout_seed: u64, o: &ExecOpts) -> ExecOut {
     let before = sh().stats;
     alloc::reset(layout_seed, true);
-    exec::reset(faults.clone(), o.want_snaps, o.record_dtors, o.c16_markers);
+    exec::reset(faults.clone(), o.want_snaps, o.record_dtors, o.c16_markers, if matches!(src, Source::Generate { .. }) { o.dtor_downgrade_p } else { 0 }, layout_seed ^ 0x64746f72);
     report::ctx_begin(head);
     st(St::execs, 1);
     st(St::f_layout_runs, 1);
@@ -178,8 +181,8 @@ pub fn execute(head: &str, src: Source<'_>, faults: &Faults, layout_seed: u64, o
     if p_broken {
         st(St::p_p_broken, 1);
     }
-    let (dtors, call_digests, order_digest, fired_panics, fired_scripts) =
-        exec::x(|x| (std::mem::take(&mut x.dtors), std::mem::take(&mut x.call_digests), x.order_digest, x.fired_panics, x.fired_scripts));
+    let (dtors, call_digests, order_digest, fired_panics, fired_scripts, inline) =
+        exec::x(|x| (std::mem::take(&mut x.dtors), std::mem::take(&mut x.call_digests), x.order_digest, x.fired_panics, x.fired_scripts, std::mem::take(&mut x.inline_record)));
     let mut digest = fnv(alloc::layout_digest(), order_digest);
     for &d in &call_digests {
         digest = fnv(digest, d);
@@ -189,7 +192,7 @@ pub fn execute(head: &str, src: Source<'_>, faults: &Faults, layout_seed: u64, o
     for i in 0..NSTATS {
         delta[i] = after[i].wrapping_sub(before[i]);
     }
-    ExecOut { ops: issued, dtors, call_digests, order_digest, digest, fired_panics, fired_scripts, delta }
+    ExecOut { ops: issued, inline, dtors, call_digests, order_digest, digest, fired_panics, fired_scripts, delta }
 }
 
 fn note_case(profile: &str, out: &ExecOut, faults: &Faults, extra: u64) {
@@ -246,6 +249,7 @@ fn script_candidates(snap: &DtorSnap, rng: &mut Rng, fresh: &mut Id) -> Vec<Vec<
     }
     for i in 0..snap.own_slots.len() {
         c.push(vec![Op::SelfDropSlot { idx: i as Id }]);
+        c.push(vec![Op::SelfDowngradeSlot { idx: i as Id, w: id(fresh) }]);
     }
     // drop every program handle: the strongest "last handle of another group" case
     if snap.handles.len() > 1 {
@@ -273,7 +277,7 @@ fn do_run(rc: &RunCfg<'_>, run: u64) {
     let layout_seed = mix(rc.seed, run, 1);
     let mut fault_rng = Rng(mix(rc.seed, run, 2));
     let none = Faults::default();
-    let mut opts = ExecOpts { want_snaps: p.want_snaps, record_dtors: false, layout_noise: false, c16_markers: false };
+    let mut opts = ExecOpts { dtor_downgrade_p: kn.dtor_downgrade_p, want_snaps: p.want_snaps, record_dtors: false, layout_noise: false, c16_markers: false };
     st(St::runs, 1);
     let mut run_digest;
     match p.mode {
@@ -300,8 +304,9 @@ fn do_run(rc: &RunCfg<'_>, run: u64) {
             for i in 1..k {
                 let l2 = mix(rc.seed, run, 100 + i);
                 opts.layout_noise = i % 2 == 1;
-                let head = ctx_head(p.name, rc.seed, run, i, &[layout_seed, l2], &none);
-                let o = execute(&head, Source::Explicit(&base.ops), &none, l2, &opts);
+                let fi = Faults { inline: base.inline.clone(), ..Faults::default() };
+                let head = ctx_head(p.name, rc.seed, run, i, &[layout_seed, l2], &fi);
+                let o = execute(&head, Source::Explicit(&base.ops), &fi, l2, &opts);
                 st(St::p_layout_compared, 1);
                 orders.insert(o.order_digest);
                 if o.call_digests != base.call_digests {
@@ -340,8 +345,8 @@ fn do_run(rc: &RunCfg<'_>, run: u64) {
             let mut scen: Vec<Faults> = vec![];
             for (k, d) in base.dtors.iter().enumerate() {
                 for j in 0..d.own_slots.len() {
-                    scen.push(Faults { panic_at: vec![], scripts: vec![(k as u32, vec![Op::SelfCloneSlot { idx: j as Id, d: 900_001 }])] });
-                    scen.push(Faults { panic_at: vec![], scripts: vec![(k as u32, vec![Op::SelfDropSlot { idx: j as Id }])] });
+                    scen.push(Faults { panic_at: vec![], scripts: vec![(k as u32, vec![Op::SelfCloneSlot { idx: j as Id, d: 900_001 }])], inline: base.inline.clone() });
+                    scen.push(Faults { panic_at: vec![], scripts: vec![(k as u32, vec![Op::SelfDropSlot { idx: j as Id }])], inline: base.inline.clone() });
                 }
             }
             for i in (1..scen.len()).rev() {
@@ -361,7 +366,7 @@ fn do_run(rc: &RunCfg<'_>, run: u64) {
             opts.record_dtors = false;
             let n = base.dtors.len() as u32;
             for k in 0..n {
-                let f = Faults { panic_at: vec![k], scripts: vec![] };
+                let f = Faults { panic_at: vec![k], scripts: vec![], inline: base.inline.clone() };
                 let head = ctx_head(p.name, rc.seed, run, 1 + k as u64, &[layout_seed], &f);
                 let o = execute(&head, Source::Explicit(&base.ops), &f, layout_seed, &opts);
                 if o.fired_panics > 0 && o.delta[St::steps as usize] > 0 {
@@ -385,7 +390,7 @@ fn do_run(rc: &RunCfg<'_>, run: u64) {
             for k in 0..n {
                 let cands = script_candidates(&base.dtors[k], &mut fault_rng, &mut fresh);
                 for sc in cands.into_iter().take(per_pos) {
-                    let f = Faults { panic_at: vec![], scripts: vec![(k as u32, sc)] };
+                    let f = Faults { panic_at: vec![], scripts: vec![(k as u32, sc)], inline: base.inline.clone() };
                     let head = ctx_head(p.name, rc.seed, run, exec_i, &[layout_seed], &f);
                     exec_i += 1;
                     let o = execute(&head, Source::Explicit(&base.ops), &f, layout_seed, &opts);
@@ -457,7 +462,7 @@ fn c16_scenario(pname: &str, head: &str, ops: &[Op], f: &Faults, layout_seed: u6
     }
     if pid == 0 {
         alloc::default_abort_signals();
-        let o2 = ExecOpts { want_snaps: opts.want_snaps, record_dtors: false, layout_noise: false, c16_markers: true };
+        let o2 = ExecOpts { dtor_downgrade_p: 0, want_snaps: opts.want_snaps, record_dtors: false, layout_noise: false, c16_markers: true };
         let o = execute(head, Source::Explicit(ops), f, layout_seed, &o2);
         note_case(pname, &o, f, 0);
         unsafe { alloc::_exit(0) };
@@ -699,15 +704,16 @@ fn replay(a: &Args) -> i32 {
         out(&format!("{{\"type\":\"ok\",\"digest\":\"{d:016x}\"}}\n"));
         return 0;
     }
-    let ops = ops::parse_ops(a.get("--ops").unwrap_or(""), ';').unwrap_or_else(|e| die(&e));
-    let faults = Faults::parse(a.get("--faults").unwrap_or("")).unwrap_or_else(|e| die(&e));
+    let (ops, inline) = ops::parse_history(a.get("--ops").unwrap_or("")).unwrap_or_else(|e| die(&e));
+    let mut faults = Faults::parse(a.get("--faults").unwrap_or("")).unwrap_or_else(|e| die(&e));
+    faults.inline = inline;
     report::SOFT_MASK.store(if a.has("--all-oracles") { report::S_ALL } else { report::soft_mask_for(pname) }, Relaxed);
     let layouts: Vec<u64> = a.get("--layouts").unwrap_or("1").split(',').filter(|s| !s.is_empty()).map(|s| s.parse().unwrap_or_else(|_| die("bad layout"))).collect();
     shared::init();
     alloc::init(true);
     alloc::set_fault_reporter(report::on_fault);
     install_panic_hook();
-    let mut opts = ExecOpts { want_snaps: profile.want_snaps, record_dtors: false, layout_noise: false, c16_markers: false };
+    let mut opts = ExecOpts { dtor_downgrade_p: 0, want_snaps: profile.want_snaps, record_dtors: false, layout_noise: false, c16_markers: false };
     let seed = a.num("--seed", 0);
     let run = a.num("--run", 0);
     if profile.mode == Mode::AbortEnum && !faults.is_empty() {
